@@ -874,6 +874,7 @@ func c08Rules(c *Ctx) {
 	ruleAbsentMapKey(c, "M1-absent-key", nil)
 	ruleAppendEllipsis(c, "B2-append-ellipsis")
 	ruleMakeSliceBounds(c, "B3-makeslice-bounds")
+	ruleNoSharedRuntimeStorage(c, "H1-no-shared-storage")
 	c.Floor("U-uniform", 250)
 	c.Floor("P1-index-slots", 100)
 	c.Floor("P2-operand-order", 45)
